@@ -45,7 +45,7 @@ def cases(rng, tier):
             labs[0], labs[-1] = "A", "B"
         obs = ["".join(rng.choice("IXYZ") for _ in range(n)) for _ in range(2)]
         yield ("audit", {"fn": rng.choice(FUNCS), "nq": n, "instrs": instrs, "labels": labs, "obs": obs, "marker": rng.random() < 0.7,
-                         "seed": rng.randrange(1 << 30)})
+                         "meta": rng.random() < 0.5, "seed": rng.randrange(1 << 30)})
 
 
 def _op(ins):
@@ -73,6 +73,9 @@ def _circuit(payload, drop_qpd=False, marker=False, drop_marker=False):
         qc.append(_op(ins), ins["qubits"])
     if marker and payload["marker"] and not drop_marker:
         qc.append(CutWire(), [0])
+    if payload.get("meta"):
+        qc.metadata = {"experiment": "ghz", "tags": ["run-7"], "nested": {"k": 1}}
+        qc.name = "user-circuit"
     return qc
 
 
@@ -92,7 +95,9 @@ def _setup(payload):
         pay = any(isinstance(p, np.ndarray) for c in circ_list for i in c.data for p in i.operation.params)
         bs = list(bases) + [i.operation.basis for c in circ_list for i in c.data if isinstance(i.operation, BaseQPDGate)]
         mo = any(getattr(op, "mutable", True) and len(op.params) > 0 for b in bs for m in b.maps for side in m for op in side)
-        return {"preplaced": pre, "payload": pay, "map_ops": mo}
+        po = any(getattr(i.operation, "mutable", True) and len(i.operation.params) > 0 and not isinstance(i.operation, BaseQPDGate)
+                 for c in circ_list for i in c.data)
+        return {"preplaced": pre, "payload": pay, "map_ops": mo, "param_ops": po}
     if fn == "cut_gates":
         ids = [i for i, x in enumerate(qc.data) if len(x.qubits) == 2 and x.operation.name != "qpd_2q"][:1]
         return (lambda c, g: P.cut_gates(c, g)), [qc, ids], feats([qc])
@@ -121,7 +126,7 @@ def _setup(payload):
         return (lambda s, o, n: P.generate_cutting_experiments(s, o, n)), [pp.subcircuits, pp.subobservables, np.inf], feats(list(pp.subcircuits.values()), pp.bases)
     subs, coefs = P.generate_cutting_experiments(pp.subcircuits, pp.subobservables, np.inf)
     res = {l: ExactSampler().run(s).result() for l, s in subs.items()}
-    return (lambda r, c, o: P.reconstruct_expectation_values(r, c, o)), [res, coefs, pp.subobservables], {"preplaced": False, "payload": False, "map_ops": False}
+    return (lambda r, c, o: P.reconstruct_expectation_values(r, c, o)), [res, coefs, pp.subobservables], {"preplaced": False, "payload": False, "map_ops": False, "param_ops": False}
 
 
 def _dups(out):
@@ -169,7 +174,7 @@ def model_line(kind, payload):
     try:
         _, _, feats = _setup(payload)
     except Exception:
-        feats = {"preplaced": False, "payload": False, "map_ops": False}
+        feats = {"preplaced": False, "payload": False, "map_ops": False, "param_ops": False}
     return {"op": "c16.predict", "fn": payload["fn"], **feats}
 
 
